@@ -352,7 +352,10 @@ def run(prop, tier, seed, jobs=None):
             done_keys.add((j[0], j[1]))
             if j[0] == "contract" and len(w.contracts[j[1]].cases) > 1 and not w.contracts[j[1]].trusted:
                 # one job per type case: the cases of a function are independent
-                batch.extend((j[0], j[1], j[2], cn) for cn in w.contracts[j[1]].cases)
+                con_ = w.contracts[j[1]]
+                tagged = prop in set(con_.props) | set(p_ for t_ in con_.clause_tags.values() for p_ in t_)
+                batch.extend((j[0], j[1], j[2], cn) for cn in con_.cases
+                             if not (tagged and con_.case_props.get(cn) and prop not in con_.case_props[cn]))
             else:
                 batch.append(j)
         if not batch:
@@ -554,6 +557,7 @@ def main(argv=None):
     ap.add_argument("--jobs", type=int)
     a = ap.parse_args(argv)
     seed = int(os.environ.get("VERIF_SEED", "0") or 0)
+    os.environ["VERIF_TIER"] = a.tier        # contracts may scale their bounded shapes with the tier
     try:
         from . import props
         LEVELS.update(props.LEVELS)
